@@ -36,7 +36,7 @@ const char * KEYWORDS[] = {"Title", "Author", "Date", "Foo", "Bar", "Affiliation
 						   "1. Author", "2. Reviewer", "K",
 						   "HTML Header", "XHTML Header"};                              // special keys whose value goes into <head> as it stands                                 // keys that start like an enumerated list item (legal anywhere but on the first line, where the line IS a list item)
 const int NKEYWORDS = sizeof(KEYWORDS) / sizeof(KEYWORDS[0]);
-const char * WORDS[] = {"alpha", "Beta", "v", "w", "&", "&amp;", "a:b", ":", "x<y", ">", "\"q\"", "it's", "caf\xc3\xa9", "\xe6\x97\xa5\xe6\x9c\xac", "*em*", "_u_", "100%", "a|b", "[x]", "(y)", "#1", "1.", "-", "+", "`c`", "~", "^", "$m$", "{z}", "back\\slash", "http://x.y/z?a=1&b=2", "e@f.gh", "=", ";", ",", "!", "?", "@", "abc.", "\xc3\xbc" "ber"};
+const char * WORDS[] = {"alpha", "Beta", "v", "w", "&", "&amp;", "a:b", ":", "x<y", ">", "\"q\"", "it's", "C:\\Data\\", "caf\xc3\xa9", "\xe6\x97\xa5\xe6\x9c\xac", "*em*", "_u_", "100%", "a|b", "[x]", "(y)", "#1", "1.", "-", "+", "`c`", "~", "^", "$m$", "{z}", "back\\slash", "http://x.y/z?a=1&b=2", "e@f.gh", "=", ";", ",", "!", "?", "@", "abc.", "\xc3\xbc" "ber"};
 const int NWORDS = sizeof(WORDS) / sizeof(WORDS[0]);
 
 std::string blanks(Rng & r, int lo, int hi) { std::string s; int n = (int)r.range(lo, hi); for (int i = 0; i < n; i++) s.push_back(r.chance(1, 4) ? '\t' : ' '); return s; }
@@ -74,8 +74,10 @@ std::string gen_value_text(Rng & r, bool multiline, std::string * normalised, co
 			}
 		}
 		if (i == 0 && wd.compare(0, 2, "//") == 0) wd = "x";
+		if (i + 1 < nw && !wd.empty() && wd.back() == '\\') wd = "back\\slash";      // a trailing backslash only at the very end of the value (before blanks or a line end it would be an escape)
 		if (i) {
-			if (multiline && r.chance(1, 3)) {
+			// (a backslash directly before a line break INSIDE a value is the hard-break syntax - not generated; at the very end of a value it is a character like any other)
+			if (multiline && r.chance(1, 3) && raw.back() != '\\') {
 				if (unindented) { raw += blanks(r, 0, 2) + eol; wd = SAFE[r.below(sizeof(SAFE) / sizeof(SAFE[0]))]; broke = true; }
 				else raw += blanks(r, 0, 2) + eol + (r.chance(1, 2) ? "\t" : "    ") + blanks(r, 0, 2);
 			} else raw += blanks(r, 1, 3);
@@ -434,6 +436,15 @@ struct MetaEngine : Engine {
 	Json judge(const Json &, const ChildOutcome & out, Ctx &) override {
 		if (out.status != "finished") return Json();
 		return out.result.at("violation");
+	}
+	// after the shrinker dropped lines: a key that starts like an enumerated list item must not become the first line (there the line IS a list item)
+	bool fixup(Json & plan) override {
+		Json & lines = plan["lines"];
+		while (lines.size()) {
+			std::string k = lines[(size_t)0].gets("k");
+			if (k.size() > 1 && isdigit((unsigned char)k[0]) && k[1] == '.') lines.a.erase(lines.a.begin()); else break;
+		}
+		return plan.at("ops").size() > 0;
 	}
 	// a crash: does the first query of a fresh client fail on this document too? then it is input-level (C01), not history
 	Json isolate(const Json & plan, int) override {
